@@ -1772,7 +1772,10 @@ class OR(LogicalOperator, ABC):
         when_false = not when_true if when_true is not None else None
         if child is self.left:
             if when_false or (when_false is None):
+                # the right side is tried for this row: what it tests and what it concludes on tells rows apart.
                 required_vars.update(self.right._unique_variables_)
+                for conc in self.right._conclusion_:
+                    required_vars.update(conc._unique_variables_)
                 when_iam = None
             else:
                 when_iam = True
